@@ -51,7 +51,8 @@ def mkSigner (spec : String) : Option Signer :=
      | some r, some s =>
        let alg : Int := if cn = "p256" then -7 else if cn = "p384" then -35 else -36
        -- the library's own ECDSA signer (CoseModel/Signers.lean) over an opaque key that answers (r, s)
-       some (ecdsaSigner alg (fun c => .ok c)
+       -- identity "hash", so no digest-size check (`none`: the hash is not a real one)
+       some (ecdsaSigner alg (fun c => .ok c) none
          { n := orderSize (curveBits' cn), sign := fun _ => .ok (r, s), verify := fun _ _ _ => false })
      | _, _ => none)
   | [kind, a, arg] =>
@@ -598,8 +599,11 @@ def keyKindOf : String → Option KeyKind
   | "ed25519" => some .ed25519 | "foreign" => some .foreign
   -- an ed25519.PublicKey value of another length than 32 octets is not an Ed25519 key
   | "ed31" => some .foreign | "ed33" => some .foreign | "ed0" => some .foreign
-  | "edp32" => some .foreign | "edp48" => some .foreign | "edp63" => some .foreign | "edp65" => some .foreign
+  | "edp16" => some .foreign | "edp32" => some .foreign | "edp48" => some .foreign | "edp63" => some .foreign | "edp65" => some .foreign
   | "edp96" => some .foreign | "edw31" => some .foreign | "edw33" => some .foreign
+  -- a pointer to an ed25519.PrivateKey is the key it points to: 64 octets is an Ed25519 key
+  | "edq64" => some .ed25519 | "edq16" => some .foreign | "edq32" => some .foreign
+  | "edq48" => some .foreign | "edqn" => some .foreign
   | _ => none
 
 def opNew (a : List String) : M String :=
@@ -634,10 +638,12 @@ def startsWithTag : Bytes → Bool
 
 /-- `Headers.UnmarshalFromRaw` with `RawProtected = P`, `RawUnprotected = U` set by the caller:
     protected bucket, then unprotected bucket, then the IV / Partial IV rule across the two;
-    `Protected` and `Unprotected` change only when all three pass.  (A tag in front of a bucket is
-    looked through or not by the CBOR library depending on its number: not modelled.) -/
+    `Protected` and `Unprotected` change only when all three pass. -/
 def Hdrs.unmarshalFromRaw (P U : Bytes) : Out Hdrs :=
-  if startsWithTag P || startsWithTag U then .unmodelled else do
+  -- a non-empty bucket must begin with a byte-string resp. map head; a tag in front of either
+  -- (which the CBOR library would look through) is refused.  Everything else that is not a
+  -- bstr / map is refused by the bucket decoders below, with the same error class.
+  if startsWithTag P || startsWithTag U then .err .other else do
   let pm ← Protected.unmarshal P
   let um ← Unprotected.unmarshal U
   if !ensureIV pm um then .err .other
